@@ -5,3 +5,5 @@ cd "$(dirname "$0")/harness"
 export CARGO_NET_OFFLINE=true
 cargo build --release 2>&1 | tail -n 3
 cargo build 2>&1 | tail -n 3
+# libFuzzer targets (used by the thorough tier of C01, C03, C14)
+(cd ../fuzz && cargo +nightly fuzz build --fuzz-dir . 2>&1 | tail -n 2) || echo "note: fuzz targets not built (thorough tiers will rebuild them)"
